@@ -190,7 +190,7 @@ _RUN = {"tier": "quick", "seed": 0}
 
 
 def _write_replay(prop, obname, out, clause, detail, inputs, verdict):
-    d = os.path.join(ROOT, "replays")
+    d = os.path.join(os.environ.get("VF_OUT", ROOT), "replays")
     os.makedirs(d, exist_ok=True)
     safe = obname.replace("/", "_")
     path = os.path.join(d, f"{safe}.json")
@@ -472,7 +472,7 @@ def _write_evidence(prop, tier, seed, results, n_ded, discharged, by_backend, so
     }
     ev = {"property_id": prop, "tier": tier, "seed": seed, "level": level, "coverage": cov,
           "assumptions": meta.get("assumptions", []), "wall_s": round(wall, 2), "violations": nviol}
-    d = os.path.join(ROOT, "evidence")
+    d = os.path.join(os.environ.get("VF_OUT", ROOT), "evidence")      # VF_OUT: scratch output directory for runs against a modified copy (tools/mutants.sh)
     os.makedirs(d, exist_ok=True)
     tmp = os.path.join(d, f".{prop}.json.tmp")
     json.dump(ev, open(tmp, "w"), indent=1, default=str)
